@@ -147,7 +147,8 @@ def tlc(spec_rel, cfg, workers=None, timeout=900, simulate=None, depth=None, see
     """Run TLC on SPEC/<spec_rel> with SPEC/<dir>/<cfg>.  Returns a dict."""
     spec_path = os.path.join(SPEC, spec_rel)
     sdir = os.path.dirname(spec_path)
-    meta = os.path.join(WORK, "tlc", "%d-%d" % (os.getpid(), int(time.time() * 1000) % 10 ** 9))
+    import uuid
+    meta = os.path.join(WORK, "tlc", "%d-%s" % (os.getpid(), uuid.uuid4().hex[:12]))
     os.makedirs(meta, exist_ok=True)
     cp = TLA_JAR + ":/opt/veriftools/tla/CommunityModules-deps.jar"
     cmd = ["java", "-Xmx" + xmx, "-XX:+UseParallelGC", "-cp", _tlc_cp(), "tlc2.TLC",
